@@ -266,6 +266,8 @@ impl<T> State<T> {
             return Err(ClosedError);
         }
 
+        verif_failpoint!("spsc.acquire_capacity.after_open");
+
         // update the cached version
         self.cursor.head = self.head.load(Ordering::Acquire);
 
@@ -286,7 +288,11 @@ impl<T> State<T> {
             return Ok(true);
         }
 
+        verif_failpoint!("spsc.acquire_filled.after_tail");
+
         if !self.open.load(Ordering::Acquire) {
+            verif_failpoint!("spsc.acquire_filled.after_open");
+
             // make one more effort to load the remaining items
             self.cursor.tail = self.tail.load(Ordering::Acquire);
 
@@ -308,7 +314,11 @@ impl<T> State<T> {
             return;
         }
 
+        verif_failpoint!("spsc.persist_head.before_store");
+
         self.head.store(self.cursor.head, Ordering::Release);
+
+        verif_failpoint!("spsc.persist_head.after_store");
 
         self.sender.wake();
     }
@@ -321,7 +331,11 @@ impl<T> State<T> {
             return;
         }
 
+        verif_failpoint!("spsc.persist_tail.before_store");
+
         self.tail.store(self.cursor.tail, Ordering::Release);
+
+        verif_failpoint!("spsc.persist_tail.after_store");
 
         self.receiver.wake();
     }
@@ -363,13 +377,19 @@ impl<T> State<T> {
             Side::Receiver => self.sender.wake(),
         }
 
+        verif_failpoint!("spsc.close.before_open");
+
         self.open.store(false, Ordering::SeqCst);
+
+        verif_failpoint!("spsc.close.after_open");
 
         // make sure the peer is notified before fully dropping the contents
         match side {
             Side::Sender => self.receiver.wake(),
             Side::Receiver => self.sender.wake(),
         }
+
+        verif_failpoint!("spsc.close.after_wake");
 
         // The allocation is freed by whichever side _finishes_ closing last, rather than the
         // side that flipped `open` second: the first closer still touches the header (the `wake`
@@ -464,6 +484,8 @@ impl<T> State<T> {
     /// Each side must have synchronized and agreed on the final state before calling this
     #[inline]
     unsafe fn drop_contents(&mut self) {
+        verif_failpoint!("spsc.drop_contents");
+
         // refresh the cursor from the shared state
         self.cursor.head = self.head.load(Ordering::Acquire);
         self.cursor.tail = self.tail.load(Ordering::Acquire);
